@@ -26,10 +26,10 @@ ASSUMPTIONS = ["the digest covers what the statement lists; wall-clock output of
 REQUIRED = {
     "quick": {"in_process_pairs": 24, "child_processes_compared": 8, "class/correlated_fundamentals": 8,
               "class/all_builtin_event_classes": 8, "class/nontrivial_run": 16, "different_seed_pairs": 10,
-              "settings_objects_compared": 24},
+              "settings_objects_compared": 24, "near_twin_runs_before": 1},
     "thorough": {"in_process_pairs": 500, "child_processes_compared": 300, "class/correlated_fundamentals": 200,
                  "class/all_builtin_event_classes": 200, "class/nontrivial_run": 400, "different_seed_pairs": 200,
-                 "settings_objects_compared": 500},
+                 "settings_objects_compared": 500, "near_twin_runs_before": 30},
 }
 CASE_TIMEOUT_S = 600
 SHARDS = {"quick": 16, "thorough": 16}
@@ -113,8 +113,43 @@ def gen_case(rng, tier, idx):
         cfg["simulation"]["sessions"].append({"sessionName": 2, "iterationSteps": 10, "withOrderPlacement": True,
                                               "withOrderExecution": True, "withPrint": False, "maxNormalOrders": 2,
                                               "maxHifreqOrders": 1, "hifreqSubmitRate": 0.5})
+    individual = rng.random() < 0.4
+    if individual:
+        # spot markets declared one by one, with their own parameters (one of them without volatility); agent
+        # types list the individual markets. A 'near twin' of such a configuration (same values, roles rotated)
+        # is run first in the same process: nothing may leak from it into this run.
+        n_spot = 4
+        names = ["Spot-%d" % i for i in range(n_spot)]
+        del cfg["Spot"]
+        vols = [0.0] + [rng.choice([0.001, 0.003])] * 3 if rng.random() < 0.5 else [rng.choice([0.001, 0.003])] * 3 + [0.0]
+        for i, nm in enumerate(names):
+            cfg[nm] = {"extends": "MarketBase", "fundamentalVolatility": vols[i], "fundamentalDrift": [0.0, 0.0001, 0.0, -0.0001][i]}
+        cfg["simulation"]["markets"] = names + ["Index"]
+        cfg["Index"]["markets"] = list(names)
+        cfg["simulation"]["fundamentalCorrelations"] = {"pairwise": [[names[1], names[2], rng.choice([-0.5, 0.6, 0.9])]]}
+        corr = True
+        for k, v in cfg.items():
+            if isinstance(v, dict) and isinstance(v.get("markets"), list) and k != "Index":
+                v["markets"] = [m for x in v["markets"] for m in (names if x == "Spot" else [x])]
+        cfg["Maker"]["targetMarket"] = rng.choice(names)
+        cfg["EvShock"]["target"] = names[1]
+        cfg["EvMistake"]["target"] = names[2]
+        cfg["EvLimit"]["targetMarkets"] = [names[1]]
+        cfg["EvHalt"]["targetMarkets"] = [names[2]]
     return {"drive": "runner", "seed": rng.randrange(1 << 31), "config": cfg, "profile": "kitchen-sink",
-            "all_events": all_events, "corr": corr, "children": idx % 4 == 0}
+            "all_events": all_events, "corr": corr, "children": idx % 4 == 0, "individual": individual}
+
+
+def near_twin(cfg):
+    """same parameter values, roles rotated by one market."""
+    twin = copy.deepcopy(cfg)
+    names = [m for m in twin["simulation"]["markets"] if m.startswith("Spot-")]
+    keys = ("fundamentalVolatility", "fundamentalDrift")
+    vals = [{k: twin[n].get(k) for k in keys} for n in names]
+    vals = vals[1:] + vals[:1]
+    for n, v in zip(names, vals):
+        twin[n].update(v)
+    return twin
 
 
 def sample_of(case):
@@ -173,6 +208,13 @@ def run_case(case, res):
     taps.install()
     settings = copy.deepcopy(case["config"])
     pristine = copy.deepcopy(settings)
+    if case.get("individual") and case.get("children"):
+        # an earlier, different-but-similar run in the same process (its outcome is irrelevant)
+        try:
+            run_digest(dict(case, config=near_twin(pristine), seed=case["seed"] + 17))
+            res.count("near_twin_runs_before")
+        except Exception:
+            res.count("near_twin_run_failed")
     random.seed(11)
     np.random.seed(11)
     with GlobalRngTripwire() as tw:
